@@ -32,8 +32,215 @@ def pairs(raw):
     return list(zip(arr[0], arr[1])) if arr and len(arr) == 2 and arr[0] else []
 
 
+# ------------------------------------------------------------------ triangle pairs
+def orient(a, b, c):
+    return (b[0] - a[0]) * (c[1] - a[1]) - (b[1] - a[1]) * (c[0] - a[0])
+
+
+def clip_convex(subject, clip):
+    """Sutherland-Hodgman in exact arithmetic: both polygons counter-clockwise, strict general position assumed"""
+    out = list(subject)
+    for i in range(len(clip)):
+        a, b = clip[i], clip[(i + 1) % len(clip)]
+        inp, out = out, []
+        for j in range(len(inp)):
+            p, q = inp[j], inp[(j + 1) % len(inp)]
+            op, oq_ = orient(a, b, p), orient(a, b, q)
+            if op >= 0:
+                out.append(p)
+            if (op > 0 and oq_ < 0) or (op < 0 and oq_ > 0):
+                t = op / (op - oq_)
+                out.append((p[0] + t * (q[0] - p[0]), p[1] + t * (q[1] - p[1])))
+        if not out:
+            break
+    return out
+
+
+def shoelace(poly):
+    return sum(poly[i][0] * poly[(i + 1) % len(poly)][1] - poly[(i + 1) % len(poly)][0] * poly[i][1] for i in range(len(poly))) / 2
+
+
+def tri_elevate(rows, d):
+    """exact degree elevation of a triangle net (rows bottom-to-top by k, left-to-right by j)"""
+    idx = lambda dd, j, k: sum(dd + 1 - kk for kk in range(k)) + j
+    out = []
+    for r in rows:
+        new = []
+        for k in range(d + 2):
+            for j in range(d + 2 - k):
+                i = d + 1 - j - k
+                tot = F(0)
+                if i > 0:
+                    tot += i * r[idx(d, j, k)]
+                if j > 0:
+                    tot += j * r[idx(d, j - 1, k)]
+                if k > 0:
+                    tot += k * r[idx(d, j, k - 1)]
+                new.append(tot / (d + 1))
+        out.append(new)
+    return out
+
+
+def general_position(A, B):
+    """no corner of one triangle on the line through a side of the other, no two corners sharing an abscissa or an ordinate
+    (keeps the pair clear of every touching / tangent-box configuration: F2, F3)"""
+    for P, Q in ((A, B), (B, A)):
+        for v in P:
+            for i in range(3):
+                if orient(Q[i], Q[(i + 1) % 3], v) == 0:
+                    return False
+    pts = A + B
+    return len({p[0] for p in pts}) == 6 and len({p[1] for p in pts}) == 6
+
+
+def gen_tri_pairs(ctx, count):
+    """degree-1 triangle pairs on the half-integer lattice in strict general position with the exact answer (convex clipping):
+    ('empty',), ('inner', 0|1) or ('polygon', sides, area).  Families: random (mostly crossing), nested, disjoint with
+    overlapping bounding boxes"""
+    rng = ctx.rng
+    out = []
+    def rnd_tri(lo, hi):
+        while True:
+            t = [(F(rng.randint(lo, hi), 2), F(rng.randint(lo, hi), 2)) for _ in range(3)]
+            a = orient(*t)
+            if a < 0:
+                t = [t[0], t[2], t[1]]
+            if abs(a) >= 8:
+                return t
+    tries = 0
+    while len(out) < count and tries < 200 * count:
+        tries += 1
+        fam = ("random", "nested", "near-disjoint")[len(out) % 3]
+        if fam == "random":
+            A, B = rnd_tri(-12, 12), rnd_tri(-12, 12)
+        elif fam == "nested":
+            A = rnd_tri(-12, 12)
+            w = [F(rng.randint(2, 10), 16) for _ in range(3)]
+            cen = lambda ws: (sum(x * p[0] for x, p in zip(ws, A)) / sum(ws), sum(x * p[1] for x, p in zip(ws, A)) / sum(ws))
+            B = [cen([w[0] + F(3, 4), w[1], w[2]]), cen([w[0], w[1] + F(3, 4), w[2]]), cen([w[0], w[1], w[2] + F(3, 4)])]
+            B = [(F(round(p[0] * 64), 64), F(round(p[1] * 64), 64)) for p in B]
+            if orient(*B) <= 0:
+                continue
+            if rng.random() < 0.5:
+                A, B = B, A
+        else:
+            A = rnd_tri(-12, 12)
+            # a small triangle just outside the hypotenuse-like side A[1]A[2], inside the bounding box of A
+            m = ((A[1][0] + A[2][0]) / 2, (A[1][1] + A[2][1]) / 2)
+            nx, ny = A[2][1] - A[1][1], A[1][0] - A[2][0]          # outward normal of side 1 (counter-clockwise triangle)
+            nrm = max(abs(nx), abs(ny))
+            c0 = (m[0] + nx / nrm * F(3, 4), m[1] + ny / nrm * F(3, 4))
+            c0 = (F(round(c0[0] * 16), 16), F(round(c0[1] * 16), 16))
+            B = [c0, (c0[0] + F(5, 8), c0[1] + F(1, 16)), (c0[0] + F(3, 16), c0[1] + F(1, 2))]
+            if rng.random() < 0.5:
+                A, B = B, A
+        if not general_position(A, B):
+            continue
+        inter = clip_convex(A, B)
+        # dedupe
+        poly = []
+        for p in inter:
+            if not poly or p != poly[-1]:
+                poly.append(p)
+        if len(poly) > 1 and poly[0] == poly[-1]:
+            poly.pop()
+        if len(poly) < 3:
+            exp = ("empty",)
+        else:
+            area = shoelace(poly)
+            if area == shoelace(A) and all(p in A for p in poly):
+                exp = ("inner", 0)
+            elif area == shoelace(B) and all(p in B for p in poly):
+                exp = ("inner", 1)
+            else:
+                exp = ("polygon", len(poly), area)
+        if fam == "nested" and exp[0] != "inner":
+            continue
+        if fam == "near-disjoint" and exp[0] != "empty":
+            continue
+        out.append({"A": A, "B": B, "family": fam, "expected": exp})
+    return out
+
+
+def tri_rows(t):
+    return [[p[0] for p in t], [p[1] for p in t]]
+
+
+def tri_presentations(A, B):
+    """(name, nodes1, nodes2, which, area scale): `which` maps 0/1 (first/second of the ORIGINAL pair) to the position in the
+    presentation.  Orientation-reversing maps are combined with a corner exchange so that every presented triangle is valid."""
+    mp = lambda t, f: [f(p) for p in t]
+    flip = lambda t: [t[0], t[2], t[1]]
+    rA, rB = tri_rows(A), tri_rows(B)
+    e = lambda rows, k: rows if k == 0 else e(tri_elevate(rows, {3: 1, 6: 2, 10: 3}[len(rows[0])]), k - 1)
+    sh = lambda p: (p[0] + 3, p[1] - 5)
+    out = [("identity", rA, rB, (0, 1), 1),
+           ("swap arguments", rB, rA, (1, 0), 1),
+           ("elevate first", e(rA, 1), rB, (0, 1), 1),
+           ("elevate second", rA, e(rB, 1), (0, 1), 1),
+           # (thirds are not binary64 numbers: the cubic net is rounded, which moves the well-separated geometry by rounding amounts)
+           ("elevate first twice (rounded to binary64), second once, swapped", e(rB, 1), [[F(float(x)) for x in r] for r in e(rA, 2)], (1, 0), 1),
+           ("relabel corners of the first", tri_rows([A[1], A[2], A[0]]), rB, (0, 1), 1),
+           ("translate", tri_rows(mp(A, sh)), tri_rows(mp(B, sh)), (0, 1), 1),
+           ("swap axes", tri_rows(flip(mp(A, lambda p: (p[1], p[0])))), tri_rows(flip(mp(B, lambda p: (p[1], p[0])))), (0, 1), 1),
+           ("mirror x", tri_rows(flip(mp(A, lambda p: (-p[0], p[1])))), tri_rows(flip(mp(B, lambda p: (-p[0], p[1])))), (0, 1), 1),
+           ("scale by 4", tri_rows(mp(A, lambda p: (4 * p[0], 4 * p[1]))), tri_rows(mp(B, lambda p: (4 * p[0], 4 * p[1]))), (0, 1), 16)]
+    return [o for o in out if all(F(float(x)) == x for r in o[1] + o[2] for x in r)]
+
+
+def triangle_sweep(ctx):
+    cases = gen_tri_pairs(ctx, 18 if ctx.quick() else 400)
+    stats = {"cases": len(cases), "presentations": 0, "failures": 0,
+             "families": {f: sum(1 for c in cases if c["family"] == f) for f in ("random", "nested", "near-disjoint")},
+             "expected": {k: sum(1 for c in cases if c["expected"][0] == k) for k in ("empty", "inner", "polygon")},
+             "kind": "metamorphic support sweep with an exact answer: degree-1 triangle pairs in strict general position, presented "
+                     "swapped / elevated to degree 2 and 3 / with relabelled corners / translated / axes swapped / mirrored / scaled; "
+                     "every presentation must give the exact region (kind, number of sides, area) - Triangle.intersect, both strategies' "
+                     "default (GEOMETRIC), both configurations"}
+    for cfg in ("pure", "speedup"):
+        jobs, meta = [], []
+        for ci, c in enumerate(cases):
+            for pres in tri_presentations(c["A"], c["B"]):
+                jobs.append({"op": "Triangle.intersect_summary", "args": [enc_arr(pres[1]), enc_arr(pres[2])]})
+                meta.append((ci, pres))
+        res = run_impl_parallel(cfg, jobs)
+        for (ci, (name, n1, n2, which, scale)), r in zip(meta, res):
+            stats["presentations"] += 1
+            c = cases[ci]
+            exp = c["expected"]
+            v = None
+            if "exc" in r:
+                v = "raised %s: %s" % (r["exc"], r.get("msg", "")[:120])
+            else:
+                regs = dec_res(r["ok"])
+                if exp[0] == "empty":
+                    if regs:
+                        v = "the triangles are disjoint, %d region(s) returned" % len(regs)
+                elif exp[0] == "inner":
+                    want = (n1, n2)[which[exp[1]]]
+                    if len(regs) != 1 or regs[0][0] != "triangle" or [list(x) for x in regs[0][1]] != [list(x) for x in want]:
+                        v = "one triangle lies inside the other: the inner triangle as presented must be returned"
+                else:
+                    if len(regs) != 1 or regs[0][0] != "polygon":
+                        v = "expected one curved polygon with %d sides, got %s" % (exp[1], [x[0] for x in regs])
+                    elif len(regs[0][2]) != exp[1]:
+                        v = "expected %d sides, got %d" % (exp[1], len(regs[0][2]))
+                    elif abs(regs[0][1] - exp[2] * scale) > F(1, 2 ** 30) * scale * max(1, exp[2]):
+                        v = "area %.12g, exact %.12g" % (float(regs[0][1]), float(exp[2] * scale))
+            if v:
+                stats["failures"] += 1
+                if stats["failures"] <= 4:
+                    ctx.violations.append({"kind": "property-fails-on-implementation", "sweep": "triangle_presentations", "config": cfg,
+                                           "op": "Triangle.intersect", "case": dict(c, presentation=name, nodes1=n1, nodes2=n2),
+                                           "implementation_returned": r, "verdict": "presentation '%s' of a %s pair: %s" % (name, c["family"], v)})
+    ctx.corr["sweep:triangle_presentations"] = stats
+    if cases:
+        ctx.samples.append({"sweep": "triangle_presentations", "case": cases[0]})
+
+
 def run(ctx):
     prove(ctx, DEPS)
+    triangle_sweep(ctx)
     n = 25 if ctx.quick() else 800
     cases = (ic.gen_line_curve(ctx, n) + ic.gen_curve_curve(ctx, 30 if ctx.quick() else 800)
              + [c for c in ic.gen_planted(ctx, n) if len(c["c1"][0]) <= 7 and len(c["c2"][0]) <= 7])
@@ -90,4 +297,4 @@ def run(ctx):
                   "flip in full_newton, first/second handling when one side is linearized, the absolute 2^-26 linearization threshold): "
                   "metamorphic sweep over Sturm-certified line-curve pairs, resultant-certified curve-curve pairs (random, lattice, touching end points, planted) and planted pairs, 8 presentations, both configurations",
                   unproved=["equivariance of the converged answers (support sweep)", "splitting a curve yields the rescaled union (not swept)",
-                            "triangle-triangle presentations (not swept)"])
+                            "triangle-triangle presentations of genuinely curved pairs (linear pairs presented up to degree 3 are swept against the exact clipping answer)"])
